@@ -64,6 +64,8 @@ def run(c):
                      "first VoteSetMaj23-style claim the driver's gossip makes in the synchronous suffix"]
     # layer 1
     for name in BFT:
+        if name == "w2221+2" and not th:
+            continue      # 2.7 M states: thorough tier
         r = bft(c, name, 3 if (th and name == "eq3+1") else 2)
         if r.violated:
             raise Infra("Agreement violated in the obligation-level model %s:\n%s" % (name, c.tlc_tail(r, 80)))
